@@ -202,6 +202,11 @@ class SelectorWorld:
                     getattr(self, "op_" + op["op"])(op, i)
                 if self.pid == "C06":
                     self.c06_lanes()
+                    forced = {tuple(o["env"]["clock"].get("bits", [])) for o in tr["ops"] if o["op"] == "FIT" and (o.get("env") or {}).get("clock", {}).get("mode") == "force"}
+                    if len(forced) == 128:
+                        self.probe("all_128_calibration_outcomes_forced_on_one_input")
+                if self.pid == "C08" and tr.get("exhaustive_schedules"):
+                    self.probe(f"every_increasing_schedule_up_to_{tr['exhaustive_schedules']}_on_one_input")
         finally:
             self.env.uninstall()
             self.heap.close()
